@@ -69,6 +69,18 @@ def gen(tier, seed):
                 cmds.append(dbggen.gen_command(rnd, rnd.choice(["breakadd", "breakremove", "goto"]), orig, 10))
         cmds += [("breaklist",), ("exit",)]
         specs.append(("runtime:" + p.__name__, rnd.choice([feat, 1]), src, [], cmds))
+    # the breakpoint list belongs to the SESSION, not to the machine: `reset` (and eval, move, goto) leaves it alone - a `.break`
+    # removed at run time stays silent and an added breakpoint keeps firing after the machine went back to its initial state
+    src_b, _ = dbggen.p_breaks(rnd)
+    ob = dbggen.origin_of(src_b)
+    for pre in ([("continue",)], [], [("stepinto", 2)]):
+        for edit in ([("breakremove", ("addr", ob + k))] for k in range(0, 7)):
+            for add in ([], [("breakadd", ("addr", ob + 1))], [("breakadd", ("addr", ob + 4))]):
+                for mid in ([("reset",)], [("reset",), ("reset",)], [("eval", "add r0 r0 #1"), ("reset",)], [("goto", ("addr", ob)), ("reset",)]):
+                    cmds = list(pre) + edit + add + mid + [("breaklist",)]
+                    for _ in range(4):
+                        cmds += [("continue",), ("registers",)]
+                    specs.append(("reset-keeps-list", 0, src_b, [], cmds + [("breaklist",), ("exit",)]))
     # the stale-breakpoint witness (F12) and the one-instruction self loop
     specs.append(("corpus", 0, "add r0 r0 #1\nadd r0 r0 #1\nadd r0 r0 #1\nadd r0 r0 #1\nhalt\n", [],
                   [("breakadd", ("addr", 0x3002)), ("continue",), ("registers",), ("goto", ("addr", 0x3001)), ("continue",), ("registers",), ("exit",)]))
@@ -99,7 +111,7 @@ def correspondence(ctx, violations, known_hits):
         "EXHAUSTIVE placements of .break (before the first statement, between any two, after the last, doubled, with a label) in "
         "programs of <= 4 (thorough: 6) statements x every resuming command, observing `registers` at each pause and `break list`; "
         "run-time add/remove by absolute address, label +- offset and ^offset on loops that revisit the breakpoint, PC moved by goto "
-        "between pause and resume; the implementation's final list is additionally checked to be sorted and duplicate-free", profiles,
+        "between pause and resume; run-time removals of `.break` addresses and additions followed by `reset` (once, twice, after eval / goto) and further resuming; the implementation's final list is additionally checked to be sorted and duplicate-free", profiles,
         exhaustive=True, exhaustive_over=".break placements in programs up to the stated size", real_binary_without_hooks=real)
 
 
